@@ -922,7 +922,19 @@ def normalize_module(tree: ast.Module, imported=None):
         helpers = dict(outer_helpers)
         helpers.update(_collect_helpers(funcs, "method", c.name))
         if helpers:
-            # helpers first (so that nested helpers are already flat), then everyone
+            # helpers first, until nothing changes (a helper that calls a helper is flat before it is inlined itself:
+            # its _Helper record is rebuilt from the normalised body), then everyone
+            own = {k: v for k, v in helpers.items() if v.node in funcs}
+            for _round in range(3):
+                before = total
+                for name in list(own):
+                    h = helpers[name]
+                    do_function(h.node, {k: v for k, v in helpers.items() if v.node is not h.node}, c.name)
+                    fresh = _collect_helpers([h.node], "method", c.name)
+                    if name in fresh:
+                        helpers[name] = fresh[name]
+                if total == before:
+                    break
             for f in funcs:
                 do_function(f, {k: v for k, v in helpers.items() if v.node is not f}, c.name)
         for n in c.body:
@@ -930,6 +942,16 @@ def normalize_module(tree: ast.Module, imported=None):
                 do_class(n, mod_helpers)
 
     if mod_helpers:
+        for _round in range(3):
+            before = total
+            for name in [n_ for n_, h_ in mod_helpers.items() if h_.node in mod_funcs]:
+                h = mod_helpers[name]
+                do_function(h.node, {k: v for k, v in mod_helpers.items() if v.node is not h.node}, None)
+                fresh = _collect_helpers([h.node], "function", None)
+                if name in fresh:
+                    mod_helpers[name] = fresh[name]
+            if total == before:
+                break
         for f in mod_funcs:
             do_function(f, {k: v for k, v in mod_helpers.items() if v.node is not f}, None)
     for n in tree.body:
